@@ -64,6 +64,7 @@ Section Law.
     let hs := e_handlers E in
     match o with
     | Read => chk 3 (is_nil (o_calls ob))
+    | Delete => []            (* `del` is not an assignment: the statement is silent; modelled and compared in Corr.v *)
     | Assign v =>
         match e_validate E v with
         | None => chk 3 (is_nil (o_calls ob))
